@@ -34,8 +34,11 @@ var msgTypes = []string{"chat", "normal", "headline"}
 var presTypes = []string{"", "unavailable", "probe"}
 
 // children alphabet: A, B, C, D, text
-var childDocs = []string{`<a xmlns="n1">x<i/></a>`, `<b xmlns="n1"/>`, `<a xmlns="n2"><a xmlns="n1"/></a>`, `<d xmlns="n3">t</d>`, `text`}
-var childNames = []xml.Name{nA, nB, nC, nD, {}}
+// (the last child is white space that a decoder reports as two tokens: text, then a CDATA section)
+var childDocs = []string{`<a xmlns="n1">x<i/></a>`, `<b xmlns="n1"/>`, `<a xmlns="n2"><a xmlns="n1"/></a>`, `<d xmlns="n3">t</d>`, `text`, wsDoc}
+var childNames = []xml.Name{nA, nB, nC, nD, {}, {}}
+
+const wsDoc = " \n<![CDATA[ ]]>"
 
 type call struct {
 	label string   // which registered handler
@@ -188,8 +191,8 @@ func stanzaNSBody(kind string, maxChildren int) nd.Body {
 	nBody := xml.Name{Space: ns, Local: "body"}
 	return func(c *nd.Ctx) nd.Result {
 		payloadPats = []xml.Name{nBody, {Local: "body"}, {Space: ns}, {}}
-		childDocs = []string{`<body>hi</body>`, `<show>away</show>`, `<a xmlns="n1">x<i/></a>`, `<body xmlns="n1"/>`, `text`}
-		childNames = []xml.Name{nBody, {Space: ns, Local: "show"}, nA, {Space: "n1", Local: "body"}, {}}
+		childDocs = []string{`<body>hi</body>`, `<show>away</show>`, `<a xmlns="n1">x<i/></a>`, `<body xmlns="n1"/>`, `text`, wsDoc}
+		childNames = []xml.Name{nBody, {Space: ns, Local: "show"}, nA, {Space: "n1", Local: "body"}, {}, {}}
 		return inner(c)
 	}
 }
@@ -319,11 +322,15 @@ func stanzaBody(kind string, maxChildren int) nd.Body {
 			var payload xml.Name
 			hasPayload := false
 			textFirst := false
-			if len(children) > 0 {
-				if children[0] == 4 {
+			first := children
+			for len(first) > 0 && first[0] == 5 {
+				first = first[1:] // leading white space, in however many tokens, is not a payload
+			}
+			if len(first) > 0 {
+				if first[0] == 4 {
 					textFirst = true
 				} else {
-					payload, hasPayload = childNames[children[0]], true
+					payload, hasPayload = childNames[first[0]], true
 				}
 			}
 			if textFirst || (!hasPayload && typ != "result") {
@@ -385,7 +392,7 @@ func stanzaBody(kind string, maxChildren int) nd.Body {
 		var want []string
 		elems := 0
 		for _, ch := range children {
-			if ch == 4 {
+			if ch >= 4 {
 				continue
 			}
 			elems++
